@@ -319,6 +319,86 @@ def one_case(kind, d, dt, name, version, host, vlevel):
     return "unrepresentable", probs
 
 
+HDR_VALUES = {
+    "A": ["x", "~"], "i": [5, -3, 0], "f": [1.5, -2.0, 1], "Z": ["a b", "q"],
+    "J": [[1, 2, 3], {"a": 1}, [1.5]], "H": ["1AF0"], "B": [[1, 2], [-1, 128], [1.5]],
+}
+
+
+def header_cases():
+  out = []
+  for dt, vals in HDR_VALUES.items():
+    for n in (2, 3):
+      for combo in itertools.product(range(len(vals)), repeat=n):
+        out.append((dt, list(combo)))
+  return out
+
+
+def header_case(dt, idxs, vlevel, via):
+  """A tag defined on several H lines (via h.add or via merging lines): every
+  written tag must carry the declared datatype, match its grammar and read
+  back equal, in the header line itself and in the split headers."""
+  probs = []
+  vals = [HDR_VALUES[dt][i] if dt != "H" else gfapy.ByteArray(HDR_VALUES[dt][i])
+          for i in idxs]
+  if via == "add":
+    hd = gfapy.Line("H", vlevel=vlevel)
+    for v in vals:
+      hd.add("xx", v, dt)
+    texts = [str(hd)]
+    tags = str(hd).split("\t")[1:]
+  else:
+    g = gfapy.Gfa(vlevel=vlevel)
+    for v in vals:
+      one = gfapy.Line("H", vlevel=vlevel)
+      one.set_datatype("xx", dt)
+      one.set("xx", v)
+      g.add_line(str(one))
+    tags = g.header.field_to_s("xx", tag=True).split("\t")
+    texts = [str(x) for x in g.headers]
+    tags = tags + [t for x in texts for t in x.split("\t")[1:]]
+  if len(tags) < len(vals):
+    probs.append(("header-values-lost", "{} values, tags {}".format(len(vals), tags)))
+  for t in tags:
+    sp = grammar.split_tag(t)
+    if sp is None or sp[0] != "xx" or sp[1] != dt or not grammar.tag_value_ok(dt, sp[2]):
+      probs.append(("header-tag-malformed-or-retyped", "{} (declared {})".format(t, dt)))
+  return probs
+
+
+def work_headers(chunk):
+  res = new_result()
+  found = {}
+  for dt, idxs in chunk:
+    for vlevel in (0, 1, 2, 3):
+      for via in ("add", "merge"):
+        res["evaluations"] += 1
+        res["transitions"] += 1
+        res["traces"] += 1
+        try:
+          with guard(3.0):
+            probs = header_case(dt, idxs, vlevel, via)
+        except HarnessTimeout:
+          probs = [("timeout", "")]
+        except gfapy.Error as e:
+          probs = [("valid-header-values-rejected", type(e).__name__)]
+        except Exception as e:
+          probs = [("foreign-exception", type(e).__name__)]
+        res["outcomes"].add("hdr:{}:{}".format(dt, "ok" if not probs else probs[0][0]))
+        res["states"].add(h(("hdr", dt, idxs, via)))
+        res["nontrivial"].add(h(("hdr", dt, idxs)))
+        for cl, det in probs:
+          k = (cl, "header", dt)
+          w = {"kind": "header", "value": idxs, "dt": dt, "name": "xx",
+               "version": None, "host": via, "vlevel": vlevel, "clause": cl}
+          size = (len(idxs), repr(idxs), vlevel, via)
+          old = found.get(k)
+          if old is None or size < old[0]:
+            found[k] = (size, w, det)
+  res["found"] = found
+  return res
+
+
 def work(chunk):
   res = new_result()
   found = {}
@@ -387,7 +467,15 @@ def run(ctx):
       if old is None or size < old[0]:
         found_all[k] = (size, w, det)
     ctx.merge(r)
-  ctx.bound_completed = {"values": len(menu)}
+  hc = header_cases()
+  for r in ctx.pmap(work_headers, list(chunks(hc, 20)), chunksize=1):
+    f = r.pop("found")
+    for k, (size, w, det) in f.items():
+      old = found_all.get(k)
+      if old is None or size < old[0]:
+        found_all[k] = (size, w, det)
+    ctx.merge(r)
+  ctx.bound_completed = {"values": len(menu), "header_multi_value_cases": len(hc)}
   for m in menu[:2] + menu[60:62] + menu[-3:]:
     ctx.sample({"kind": m[0], "value": m[1]})
   for k, (size, w, det) in sorted(found_all.items()):
@@ -398,6 +486,14 @@ def run(ctx):
 
 
 def replay(w, ctx):
+  if w["kind"] == "header":
+    try:
+      probs = header_case(w["dt"], w["value"], w["vlevel"], w["host"])
+    except gfapy.Error as e:
+      probs = [("valid-header-values-rejected", type(e).__name__)]
+    except Exception as e:
+      probs = [("foreign-exception", type(e).__name__)]
+    return [mkviolation(cl, vkey(w), w, "", det, "") for cl, det in probs]
   try:
     oc, probs = one_case(w["kind"], w["value"], w["dt"], w["name"],
                          w["version"], w["host"], w["vlevel"])
